@@ -25,6 +25,7 @@ package metrics
 import (
 	"fmt"
 	"runtime"
+	"sort"
 	"sync"
 	"sync/atomic"
 	"time"
@@ -489,9 +490,16 @@ func (mc *Collector) metricKey(name string, tags map[string]string) string {
 		return name
 	}
 
+	// Walk the tags in sorted order so that the key does not depend on map iteration order
+	names := make([]string, 0, len(tags))
+	for k := range tags {
+		names = append(names, k)
+	}
+	sort.Strings(names)
+
 	key := name
-	for k, v := range tags {
-		key += ":" + k + "=" + v
+	for _, k := range names {
+		key += ":" + k + "=" + tags[k]
 	}
 	return key
 }
